@@ -162,6 +162,15 @@ class Compiler:
                 return a > b
             if isinstance(op, ast.GtE):
                 return a >= b
+        if isinstance(e, ast.BinOp) and isinstance(e.op, (ast.Add, ast.Sub)):
+            a, b = self.ev(e.left, S), self.ev(e.right, S)
+            return a + b if isinstance(e.op, ast.Add) else a - b
+        if isinstance(e, ast.Call) and isinstance(e.func, ast.Name) and e.func.id in ('max', 'min') and len(e.args) >= 2 and not e.keywords:
+            vals = [self.ev(x, S) for x in e.args]
+            out = vals[0]
+            for v in vals[1:]:
+                out = z3.If(v > out, v, out) if e.func.id == 'max' else z3.If(v < out, v, out)
+            return out
         if isinstance(e, ast.Call):   # pure queue / thread observers
             f = e.func
             if isinstance(f, ast.Attribute) and isinstance(f.value, ast.Name) and self.name(f.value.id) in self.p.threads and f.attr == 'is_alive':
@@ -464,7 +473,7 @@ class Compiler:
             if tgt is not None:
                 raise Unsupported('x = yield')
             return self.flat_then(v.value, k, ctx, L, lambda name, k2: self.yield_(name, k2, ctx, L))
-        if isinstance(v, ast.Call):
+        if isinstance(v, ast.Call) and not (isinstance(v.func, ast.Name) and v.func.id in ('max', 'min')):
             f = v.func
             if src == 'sys.exc_info()':
                 here = p.newloc(t, f'exc_info@{L}')
